@@ -754,6 +754,96 @@ func stdlibStringHook(callee *ssa.Function, args []AV) ([]AV, bool) {
 		if ok1 && ok2 {
 			return []AV{avI(int64(strings.LastIndex(a, b)))}, true
 		}
+	case "strings.IndexByte", "strings.LastIndexByte", "strings.IndexRune":
+		a, ok1 := str(0)
+		b, ok2 := num(1)
+		if ok1 && ok2 {
+			switch name {
+			case "IndexByte":
+				return []AV{avI(int64(strings.IndexByte(a, byte(b))))}, true
+			case "LastIndexByte":
+				return []AV{avI(int64(strings.LastIndexByte(a, byte(b))))}, true
+			default:
+				return []AV{avI(int64(strings.IndexRune(a, rune(b))))}, true
+			}
+		}
+	case "strings.Contains", "strings.ContainsAny", "strings.EqualFold":
+		a, ok1 := str(0)
+		b, ok2 := str(1)
+		if ok1 && ok2 {
+			switch name {
+			case "Contains":
+				return []AV{avB(strings.Contains(a, b))}, true
+			case "ContainsAny":
+				return []AV{avB(strings.ContainsAny(a, b))}, true
+			default:
+				return []AV{avB(strings.EqualFold(a, b))}, true
+			}
+		}
+	case "strings.ContainsRune":
+		a, ok1 := str(0)
+		b, ok2 := num(1)
+		if ok1 && ok2 {
+			return []AV{avB(strings.ContainsRune(a, rune(b)))}, true
+		}
+	case "strings.Count":
+		a, ok1 := str(0)
+		b, ok2 := str(1)
+		if ok1 && ok2 {
+			return []AV{avI(int64(strings.Count(a, b)))}, true
+		}
+	case "strings.Trim", "strings.TrimLeft", "strings.TrimRight":
+		a, ok1 := str(0)
+		b, ok2 := str(1)
+		if ok1 && ok2 {
+			switch name {
+			case "Trim":
+				return []AV{avS(strings.Trim(a, b))}, true
+			case "TrimLeft":
+				return []AV{avS(strings.TrimLeft(a, b))}, true
+			default:
+				return []AV{avS(strings.TrimRight(a, b))}, true
+			}
+		}
+	case "strings.ToLower", "strings.ToUpper", "strings.TrimSpace":
+		if a, ok := str(0); ok {
+			switch name {
+			case "ToLower":
+				return []AV{avS(strings.ToLower(a))}, true
+			case "ToUpper":
+				return []AV{avS(strings.ToUpper(a))}, true
+			default:
+				return []AV{avS(strings.TrimSpace(a))}, true
+			}
+		}
+	case "strings.ReplaceAll":
+		a, ok1 := str(0)
+		b, ok2 := str(1)
+		c, ok3 := str(2)
+		if ok1 && ok2 && ok3 {
+			return []AV{avS(strings.ReplaceAll(a, b, c))}, true
+		}
+	case "strings.Replace":
+		a, ok1 := str(0)
+		b, ok2 := str(1)
+		c, ok3 := str(2)
+		n, ok4 := num(3)
+		if ok1 && ok2 && ok3 && ok4 {
+			return []AV{avS(strings.Replace(a, b, c, n))}, true
+		}
+	case "strings.Join":
+		if len(args) == 2 && args[0].K == avSlice {
+			if sep, ok := str(1); ok {
+				var parts []string
+				for _, el := range args[0].Elems {
+					if el.K != avStr {
+						return nil, false
+					}
+					parts = append(parts, el.S)
+				}
+				return []AV{avS(strings.Join(parts, sep))}, true
+			}
+		}
 	case "path/filepath.Ext":
 		if a, ok := str(0); ok {
 			return []AV{avS(filepath.Ext(a))}, true
